@@ -171,6 +171,17 @@ def run_case(ck, desc):
         if ev3 is None or not (np.array_equal(ev3["pp"], pp1) and np.array_equal(rf3, rf1) and (rfd1 is None or np.array_equal(rfd3, rfd1, equal_nan=True))):
             ck.violation("constant-schedule = scalar setting", {"max_abs_field_diff": float(np.max(np.abs(ev3["pp"] - pp1))) if ev3 is not None else None}, desc)
         # wrong schedule length is rejected
+        for special in (1, 0):
+            if special != nt:
+                fresh, _, _, _, _ = sim.build(desc)
+                for form in (np.full(special, desc["p_f"]), [desc["p_f"]] * special):
+                    try:
+                        with np.errstate(all="ignore"):
+                            fresh.simulate(t.copy(), form)
+                    except Exception as e:  # noqa: BLE001
+                        ck.count(f"wrong_length_rejected.{type(e).__name__}")
+                    else:
+                        ck.violation("schedule-length-mismatch-rejected", {"len_schedule": special, "len_time": nt, "container": type(form).__name__}, desc)
         bad = max(0, nt + desc["bad_len"])
         if bad != nt:
             fresh, _, _, _, _ = sim.build(desc)
